@@ -629,4 +629,103 @@ example : AdmissibleRun 2 1 [] (demoOps ++ [COp.rotate demoState [2]]) := by
 example : unchokedNum ((demoOps ++ [COp.rotate demoState [2]]).foldl (cstepG 2) []) = 2 ∧
     optimisticNum ((demoOps ++ [COp.rotate demoState [2]]).foldl (cstepG 2) []) = 1 := by decide
 
+/-! ### The rotation timer: `timeout_change_conn_state` -/
+
+theorem optCandidates_spec (s : CState) (a : Nat) (h : a ∈ optCandidates s) :
+    ∃ p ∈ s, p.addr = a ∧ p.amChoked = true ∧ p.interested = true := by
+  unfold optCandidates at h
+  obtain ⟨p, hp, rfl⟩ := List.mem_map.mp h
+  obtain ⟨hm, hf⟩ := List.mem_filter.mp hp
+  simp only [Bool.and_eq_true] at hf
+  exact ⟨p, hm, rfl, hf.1, hf.2⟩
+
+theorem tick_rotateAdmissible (O : Nat) (s : CState) (seeder : Bool) (r : Rates) (sorted : List CPeer)
+    (pick : List Nat) (h : tickAdmissible O s seeder r sorted pick) (b : Bool) :
+    rotateAdmissible O s sorted (if b then pick else []) := by
+  obtain ⟨hp, _, hnd, hlen, hc⟩ := h
+  cases b
+  · exact ⟨hp, List.nodup_nil, Nat.zero_le _, fun a ha => by cases ha⟩
+  · exact ⟨hp, hnd, hlen, fun a ha => optCandidates_spec s a (hc a ha)⟩
+
+/-- **T1 at the timer.** A tick is either no change at all or an admissible rotation, so it keeps the slot bounds
+    (and with `T1_slots_bounded` every history of manager operations and ticks does). -/
+theorem T1_tick_keeps_slot_bounds (M O rounds : Nat) (s : CState) (round : Nat) (seeder : Bool) (r : Rates)
+    (sorted : List CPeer) (pick : List Nat) (hinv : Inv M O s) (hadm : tickAdmissible O s seeder r sorted pick) :
+    Inv M O (tickState s (tick M rounds s round r sorted pick)) := by
+  unfold tick tickState
+  by_cases hready : tickReady s r = true
+  · simp only [hready, if_true]
+    have hadm' : COp.admissible O s (.rotate sorted (if tickRound rounds round = 0 then pick else [])) := by
+      have h := tick_rotateAdmissible O s seeder r sorted pick hadm (decide (tickRound rounds round = 0))
+      by_cases h0 : tickRound rounds round = 0
+      · simp only [h0, decide_true, if_true] at h ⊢; exact h
+      · simp only [h0, decide_false, if_false] at h ⊢; exact (by simpa using h : rotateAdmissible O s sorted [])
+    exact step_inv M O s _ hinv hadm'
+  · simp only [hready, if_false]
+    exact hinv
+
+/-- A tick that finds a peer without reported rates changes nothing and broadcasts nothing. -/
+theorem tick_waits_for_rates (M rounds : Nat) (s : CState) (round : Nat) (r : Rates) (sorted : List CPeer)
+    (pick : List Nat) (h : tickReady s r = false) :
+    tick M rounds s round r sorted pick = (tickRound rounds round, none) := by
+  unfold tick; simp [h]
+
+theorem same_addr_eq (s : CState) (hnd : (s.map (·.addr)).Nodup) (p q : CPeer) (hp : p ∈ s) (hq : q ∈ s)
+    (h : p.addr = q.addr) : p = q := by
+  induction s with
+  | nil => cases hp
+  | cons x xs ih =>
+    simp only [List.map_cons, List.nodup_cons, List.mem_map, not_exists, not_and] at hnd
+    rcases List.mem_cons.mp hp with rfl | hp'
+    · rcases List.mem_cons.mp hq with rfl | hq'
+      · rfl
+      · exact absurd h.symm (hnd.1 q hq')
+    · rcases List.mem_cons.mp hq with rfl | hq'
+      · exact absurd h (hnd.1 p hp')
+      · exact ih hnd.2 hp' hq'
+
+/-- **T2 at the timer.** After a tick that is carried out, the rotation postcondition holds for the rate that
+    counts (`uploaded_rate` while downloading, `download_rate` when seeding). -/
+theorem T2_tick_postcondition (M O rounds : Nat) (s : CState) (round : Nat) (seeder : Bool) (r : Rates)
+    (sorted : List CPeer) (pick : List Nat) (hinv : Inv M O s) (hadm : tickAdmissible O s seeder r sorted pick)
+    (after : CState) (m : List (Nat × Bool)) (h : (tick M rounds s round r sorted pick).2 = some (after, m)) :
+    let newOpt := if tickRound rounds round = 0 then pick else []
+    let rate := tickRate seeder r
+    (∀ p ∈ after, p.amChoked = false → newOpt.contains p.addr = false → p.interested = true) ∧
+    (∀ q ∈ after, ∀ p ∈ after, q.interested = true → q.amChoked = true → newOpt.contains q.addr = false →
+        p.amChoked = false → newOpt.contains p.addr = false → rate q.addr ≤ rate p.addr) ∧
+    (∀ p ∈ after, p.interested = false → p.amChoked = true) := by
+  intro newOpt rate
+  unfold tick at h
+  simp only at h
+  split at h
+  · simp only [Option.some.injEq] at h
+    have hadm' := tick_rotateAdmissible O s seeder r sorted pick hadm (decide (tickRound rounds round = 0))
+    have hno : (if decide (tickRound rounds round = 0) = true then pick else []) = newOpt := by
+      by_cases h0 : tickRound rounds round = 0 <;> simp [newOpt, h0]
+    rw [hno] at hadm'
+    obtain ⟨hperm, _, _, hcand⟩ := hadm'
+    have hopt : ∀ p ∈ sorted, newOpt.contains p.addr = true → p.interested = true := by
+      intro p hp hc
+      have hmem : p.addr ∈ newOpt := by simpa using hc
+      obtain ⟨q, hq, hqa, _, hqi⟩ := hcand _ hmem
+      have : q = p := same_addr_eq s hinv.nodup q p hq (hperm.mem_iff.mp hp) hqa
+      rw [← this]; exact hqi
+    have h2 := T2_rotation_postcondition M rate sorted newOpt hadm.2.1 hopt
+    have he : (rotate M sorted newOpt).1 = after := by rw [h]
+    rw [he] at h2
+    exact h2
+  · cases h
+
+/-- Non-vacuity: a carried-out tick in round 2 → 0 with an optimistic pick, and a tick that waits. -/
+example :
+    let s : CState := [{ addr := 1, interested := true }, { addr := 2, amChoked := false, interested := true }]
+    let r : Rates := fun a => if a = 1 then (some 5, some 1) else (some 2, some 9)
+    tickAdmissible 1 s false r [s[1]!, s[0]!] [1] ∧
+    (tick 1 3 s 2 r [s[1]!, s[0]!] [1]).1 = 0 ∧
+    tickState s (tick 1 3 s 2 r [s[1]!, s[0]!] [1]) =
+      [{ addr := 2, amChoked := false, interested := true }, { addr := 1, amChoked := false, interested := true, optimistic := true }] ∧
+    (tick 1 3 s 2 (fun _ => (none, some 1)) s [1]).2 = none := by
+  refine ⟨⟨by decide, by decide, by decide, by decide, by decide⟩, by decide, by decide, by decide⟩
+
 end Rdest.Props.C14
